@@ -173,7 +173,8 @@ class Result:
         self.status = None      # ok | exit:N | sig:N | spin | wall | missing
         self.cpu = 0.0
         self.routes = []        # in query order: (src, dst, lat|None, links|None, exc|None)
-        self.local = {}         # (zone, src, dst) -> dict(gw_src, gw_dst, lat, links) or dict(exc=...)
+        self.local = {}         # (zone, src, dst) -> dict(gw_src, gw_dst, lat, links) or dict(exc=...)   (last answer)
+        self.local_all = []     # every get_local_route answer in query order: (zone, src, dst, dict as above)
         self.linklat = {}
         self.spin = None        # text of the SPIN line
         self.build_errors = []
@@ -213,8 +214,10 @@ def parse(out):
             n = int(t[7])
             cur.local[(t[1], t[2], t[3])] = dict(gw_src=None if t[4] == "-" else t[4], gw_dst=None if t[5] == "-" else t[5],
                                                  lat=float(t[6]), links=t[8:8 + n])
+            cur.local_all.append((t[1], t[2], t[3], cur.local[(t[1], t[2], t[3])]))
         elif k == "LX":
             cur.local[(t[1], t[2], t[3])] = dict(exc=" ".join(t[4:]))
+            cur.local_all.append((t[1], t[2], t[3], cur.local[(t[1], t[2], t[3])]))
         elif k == "LK":
             cur.linklat[t[1]] = float(t[2])
         elif k == "SPIN":
@@ -235,8 +238,28 @@ def harness(flavour):
     return build.harness("route_dump.cpp", flavour, internal=True)
 
 
+class Bundle:
+    """Several platforms whose names do not collide (zones, netpoints and links carry a per-platform prefix), built side by
+    side under the root zone of ONE engine (one child process): all declarations first, then all queries (the platform is
+    sealed by the first query). Engine start-up dominates the cost of a small platform."""
+
+    QUERY = ("Q", "Q2", "LQ", "LQA", "LINKS")
+
+    def __init__(self, bid, members):
+        self.id = bid
+        self.members = list(members)
+
+    def spec(self):
+        decl, qry = [], []
+        for p in self.members:
+            for l in p.lines:
+                (qry if l.split(" ", 1)[0] in self.QUERY else decl).append(l)
+        return "P %s\n%s\nE\n" % (self.id, "\n".join(decl + qry))
+
+
 def run_batch(flavour, plats, cpu_budget, wall_budget, scratch):
-    """Run the given platforms in one harness process (each platform in its own forked child). Returns id -> Result.
+    """Run the given platforms (Plat or Bundle: anything with .id and .spec()) in one harness process (each platform in its
+    own forked child). cpu_budget = CPU seconds allowed to ONE build directive or query. Returns id -> Result.
     A platform without END line (harness process killed by the outer watchdog) gets status 'missing'."""
     exe = harness(flavour)
     fd, path = tempfile.mkstemp(prefix="spec-", suffix=".txt", dir=scratch)
